@@ -3891,6 +3891,15 @@ reinit:
           coap_log_warn("Content-Format option mismatch\n");
           goto fail_resp;
         }
+        if (block.szx != lg_crcv->szx) {
+          /*
+           * The blocks received are tracked in units of the block size of
+           * the first response, which every response has to use
+           * (RFC7959 2.4).
+           */
+          coap_log_warn("Block size changed during transfer\n");
+          goto fail_resp;
+        }
 #if COAP_Q_BLOCK_SUPPORT
         if (block_opt == COAP_OPTION_Q_BLOCK2 && size2 != lg_crcv->total_len) {
           coap_log_warn("Size2 option mismatch\n");
